@@ -23,7 +23,14 @@ type c19Case struct {
 
 func c19Check(c c19Case) error {
 	// bounded emitter against the model's capacity rule
-	p := &emPair{em: asm.NewEmitter(make([]byte, c.Cap), c.Listing), m: asmcat.NewModel(c.Cap, false, c.Listing)}
+	// the target is a window into a larger array (len < cap): the bytes around it must stay untouched
+	big := make([]byte, c.Cap+24)
+	for i := range big {
+		big[i] = 0xC3
+	}
+	target := big[8 : 8+c.Cap]
+	defer func() {}()
+	p := &emPair{em: asm.NewEmitter(target, c.Listing), m: asmcat.NewModel(c.Cap, false, c.Listing)}
 	if p.em.Cap() != c.Cap {
 		return fmt.Errorf("Cap() = %d for a %d-byte target", p.em.Cap(), c.Cap)
 	}
@@ -31,8 +38,13 @@ func c19Check(c c19Case) error {
 		if err := p.step(i, o); err != nil {
 			return err
 		}
-		if p.em.Len() > p.em.Cap() {
-			return fmt.Errorf("after op %d: Len() = %d exceeds Cap() = %d", i, p.em.Len(), p.em.Cap())
+		if p.em.Len() > p.em.Cap() || p.em.Len() > c.Cap {
+			return fmt.Errorf("after op %d: Len() = %d exceeds the capacity %d (Cap() = %d)", i, p.em.Len(), c.Cap, p.em.Cap())
+		}
+		for j := 0; j < 8; j++ {
+			if big[j] != 0xC3 || big[8+c.Cap+j] != 0xC3 {
+				return fmt.Errorf("after op %d %v: a byte outside the %d-byte target buffer was written (the target is a window into a larger array)", i, o, c.Cap)
+			}
 		}
 	}
 	if !bytes.Equal(p.em.Bytes(), p.m.Bytes) {
